@@ -69,6 +69,8 @@ def run(run, args):
                "%d bitwise differences, %d beyond 1e-12" % (len(res[0]), len(res[1])))
     run.oblige("the exact isotopologue distribution is what every implementation output shows", not fails, "")
     broken = standard_proof_obligations(run, "C11", THEOREMS) if THEOREMS else []
+    # floating-point level: the output is normalize().ignore_below(thr) of whatever was built, so its sum is within normalize's rounded bound
+    broken += standard_proof_obligations(run, "C14f", ["C11_output_sum_rounded"], allowed_axioms=STD_FLOAT_AXIOMS)
     if fails:
         violation(run, {"failing_input": by_id[fails[0]], "what": "peaks are not the exact isotopologues (threshold 0) / a surviving arrangement is missing, "
                         "ratios are off or a peak is below the threshold (threshold > 0) / panic", "all_failing_ids": fails[:40]})
